@@ -197,3 +197,7 @@ Lemma collision_both_stored_lemma :
   exists s, run init collision_full_run = Some s /\ final s = true /\
             idx s = [(Data, [7%N]); (Tree, [7%N])].
 Proof. eexists. split; [vm_compute; reflexivity|]. split; reflexivity. Qed.
+
+(* a small source for the non-vacuity example of `backup_run` *)
+Definition ex_items : list item := [NewTree 1 0; Other 2 0 [7; 8]%N; NewTree 3 0; EndTree; EndTree].
+Definition ex_tid (es : list entry) : id := N.of_nat (100 + length es).
